@@ -18,7 +18,7 @@ PROPS = {
                "small_product_exact (fft64_znx_small_single_product = nmul as integer arrays, every nn = 2m >= 2, both mul flavours) and "
                "svp_exact / rows_zero (svp_prepare + svp_apply_dft + vec_znx_idft: limb i < min(rsz, asz) = pol * vec_i, all other output limbs exactly zero, "
                "all limb counts incl. 0, all strides) under the explicit hypotheses H1-H4 on the abstract conversion/FFT pieces (ExactDft) and the dispatch "
-               "invariants (ExactArith: FMA pointwise kernels only when 4 | m); hypotheses shown satisfiable (Gaussian integers, nn = 2) NON-VACUITY (Properties/ErrWitness.lean): at N = 8 (m = 4, K = R, zeta = exp(i pi/8)) with the library's ACTUAL stored twiddle patterns and the configuration it installs on this host, every hypothesis of the binary64 rounding theorems (CfgOk, 3.5u accuracy of both tables proved from rational enclosures of cos/sin(pi/8), flags by evaluation, budget) is discharged on concrete integer inputs and the conclusions are evaluated (witness_reim_fft_err_k2, witness_small_product_exact_k2, witness_vmp_exact_k2, witness_roundtrip_exact_k2).",
+               "invariants (ExactArith: FMA pointwise kernels only when 4 | m); hypotheses shown satisfiable (Gaussian integers, nn = 2) NON-VACUITY (Properties/ErrWitness.lean): at N = 8 (m = 4, K = R, zeta = exp(i pi/8)) with the library's ACTUAL stored twiddle patterns and the configuration it installs on this host, every hypothesis of reim_fft_err / reim_ifft_err, small_product_err / _exact, vmp_exact (2x1) and roundtrip_exact (CfgOk, 3.5u accuracy of both tables proved from rational enclosures of cos/sin(pi/8), flags by evaluation, budget) is discharged on concrete integer inputs and the conclusions are evaluated (witness_*_k2); not covered by a witness: the cplx-layout error theorems, svp_err / vmp_err and the C16Err2 budgets; the table patterns and the configuration in the witness are literals read from the library once, not regenerated per run.",
         not_proved="END-TO-END BINARY64 (Properties/C01Err.lean, about the bit-exactly validated model function smallProduct (Cfg.parts c)): every output "
                    "coefficient is an integer within E' + 1/2 of the exact negacyclic product with E' = 12*log2(N)*2^-53*(|a|_1 |b|_2 + |a|_2 |b|_1) for N <= 131072, "
                    "and the result IS the exact product whenever E' < 1/2 (small_product_err_partial, small_product_exact_f64_partial, _prop_partial with the "
@@ -47,7 +47,7 @@ PROPS = {
                "layouts (nn >= 8: reim4 blocks, column pairs, lone last column, last computed column half of a pair; nn < 8: column-major), both vmpAvx flavours, "
                "mul/addmul ref and fma, every nrows, ncols, asz, rsz >= 0; vmp_exact: under H1-H4 the inverse DFT of vmp_apply_dft is column j = "
                "sum_i a_i * M[i][j] in Z[X]/(X^nn+1), other limbs zero; vmp_apply_dft_eq: vmp_apply_dft = vmp_apply_dft_to_dft o vec_znx_dft as arrays for "
-               "any carrier (binary64 included) and any prepared matrix (apply reads only min(nrows, asz) rows) NON-VACUITY (Properties/ErrWitness.lean): at N = 8 (m = 4, K = R, zeta = exp(i pi/8)) with the library's ACTUAL stored twiddle patterns and the configuration it installs on this host, every hypothesis of the binary64 rounding theorems (CfgOk, 3.5u accuracy of both tables proved from rational enclosures of cos/sin(pi/8), flags by evaluation, budget) is discharged on concrete integer inputs and the conclusions are evaluated (witness_reim_fft_err_k2, witness_small_product_exact_k2, witness_vmp_exact_k2, witness_roundtrip_exact_k2).",
+               "any carrier (binary64 included) and any prepared matrix (apply reads only min(nrows, asz) rows) NON-VACUITY (Properties/ErrWitness.lean): at N = 8 (m = 4, K = R, zeta = exp(i pi/8)) with the library's ACTUAL stored twiddle patterns and the configuration it installs on this host, every hypothesis of reim_fft_err / reim_ifft_err, small_product_err / _exact, vmp_exact (2x1) and roundtrip_exact (CfgOk, 3.5u accuracy of both tables proved from rational enclosures of cos/sin(pi/8), flags by evaluation, budget) is discharged on concrete integer inputs and the conclusions are evaluated (witness_*_k2); not covered by a witness: the cplx-layout error theorems, svp_err / vmp_err and the C16Err2 budgets; the table patterns and the configuration in the witness are literals read from the library once, not regenerated per run.",
         not_proved="BINARY64 (Properties/C02Err.lean, about the bit-exactly validated model functions): every coefficient of column j of idft(vmp_apply_dft(prepare M)) is an integer "
                    "within E_sum + 1/2 of the exact sum_i a_i*M[i][j], E_sum = (12 log2(N) + 2n + 3) 2^-53 sum_i (|a_i|_1 |M_ij|_2 + |a_i|_2 |M_ij|_1), n = min(nrows, a_size): the C01Err "
                    "budget per row (constant 12, not the property's 8: hence _partial) plus an explicit accumulation term; exact integer result when E_sum < 1/2 (vmp_exact_f64_partial); "
@@ -96,8 +96,8 @@ PROPS = {
         extra_modules=["SpqProofs.Properties.SrcNorm", "SpqProofs.Properties.SrcVecNorm"],
         gen=["csrc"],   # tools/c2lean.py: spqlios/coeffs/coeffs_arithmetic.c -> lean/Gen/CSrc.lean (clang JSON AST -> Spq.CIR terms)
         streams=dict(quick=[("kz_norm", "plain"), ("vz_norm", "plain"), ("cs_norm", "plain"), ("cs_vnorm", "plain")], thorough=[("kz_norm", "plain"), ("vz_norm", "plain"), ("vz_box", "plain"), ("cs_norm", "plain"), ("cs_norm", "asan"), ("cs_vnorm", "plain"), ("cs_vnorm", "asan")]),
-        proved="digit/carry = balanced residue / exact quotient (all k in [1,62], |x|,|cin| <= 2^62, no wrap); per-coefficient chain = balancedDigits (existence, value identity, uniqueness); heap-level normalize_spec for all nn, k, limb counts incl. 0, strides, in place or disjoint, frame, bounds flag; big and range variants SOURCE TIE (Properties/SrcNorm.lean): the C source of znx_normalize (helpers inlined), translated on every run, is proved equal to the model function in its six pointer shapes for every nn, 1 <= k <= 63 and any aliasing of out/carry_out with in/carry_in. WRAPPER (Properties/SrcVecNorm.lean): the C source of vec_znx_normalize_base2k_ref (early returns, pointer locals, signed downward loops calling the generated znx_normalize term with null / limb / scratch pointers, zero extension), translated on every run, simulates VecZnx.normalize on an arena: the final arena is the model heap except for the nn-cell scratch window (1 <= k <= 63, per-limb identical-or-disjoint windows, scratch disjoint from all limbs), no out-of-bounds access from the declared extents; vec_znx_normalize_base2k_tmp_bytes_ref = 8*nn.",
-        not_proved="nothing of the statement is left unproved at model level; the 8 argument shapes of znx_normalize are one model function (the shapes differ only in what is stored) — tied by the kz_norm stream over all shapes and aliasing patterns",
+        proved="digit/carry = balanced residue / exact quotient (all k in [1,62], |x|,|cin| <= 2^62, no wrap); per-coefficient chain = balancedDigits (existence, value identity, uniqueness); heap-level normalize_spec for all nn, k, limb counts incl. 0, strides, in place or disjoint, frame, bounds flag; big and range variants SOURCE TIE (Properties/SrcNorm.lean): the C source of znx_normalize (helpers inlined), translated on every run, is proved equal to the model function in its six pointer shapes for every nn, 1 <= k <= 63, exact-size buffers and any exact aliasing of out/carry_out with in/carry_in (out != carry_out). WRAPPER (Properties/SrcVecNorm.lean): the C source of vec_znx_normalize_base2k_ref (early returns, pointer locals, signed downward loops calling the generated znx_normalize term with null / limb / scratch pointers, zero extension), translated on every run, simulates VecZnx.normalize on an arena: the final arena is the model heap except for the nn-cell scratch window (1 <= k <= 63, per-limb identical-or-disjoint windows, scratch disjoint from all limbs), no out-of-bounds access from the declared extents; vec_znx_normalize_base2k_tmp_bytes_ref = 8*nn.",
+        not_proved="nothing of the statement is left unproved at model level; the argument shapes of znx_normalize are one model function (the shapes differ only in what is stored): six shapes are proved equal to the translated source (SrcNorm), all shapes and aliasing patterns are run by the kz_norm stream; SrcVecNorm needs nn < 2^61 and limb counts < 2^63",
         level_text="Lean 4 theorems: balanced base-2^k expansion (value, range, uniqueness) for every k, limb count and stride; model tied to the code by exhaustive small boxes and boundary carry chains, bit-exact",
         design_ref="DESIGN.md §5 C05",
     ),
@@ -107,7 +107,7 @@ PROPS = {
         extra_modules=["SpqProofs.Properties.Numerics", "SpqProofs.Properties.C06Err", "SpqProofs.Properties.ErrWitness"],
         streams=dict(quick=[("ff_fft", "plain"), ("ff_cfft", "plain"), ("ff_crafted", "plain"), ("ff_ccrafted", "plain"), ("ff_tables", "plain"), ("cv_naive", "plain")],
                      thorough=[("ff_fft", "plain"), ("ff_cfft", "plain"), ("ff_crafted", "plain"), ("ff_ccrafted", "plain"), ("ff_tables", "plain"), ("cv_naive", "plain")]),
-        proved="exact arithmetic, every m = 2^k (all k), reim and cplx layouts, reference and FMA/assembly schedules alike (the same network code as the bit-exact model, instantiated with a commutative ring with I^2=-1, zeta^m=I and the exact table = transcription of the fill_* functions): forward output j = evaluation of the input polynomial at zeta^(1+4*bitrev_k(j)); the inverse applied to exact evaluations returns m times the coefficients; ifft o fft = m.id for any pairing of implementations NON-VACUITY (Properties/ErrWitness.lean): at N = 8 (m = 4, K = R, zeta = exp(i pi/8)) with the library's ACTUAL stored twiddle patterns and the configuration it installs on this host, every hypothesis of the binary64 rounding theorems (CfgOk, 3.5u accuracy of both tables proved from rational enclosures of cos/sin(pi/8), flags by evaluation, budget) is discharged on concrete integer inputs and the conclusions are evaluated (witness_reim_fft_err_k2, witness_small_product_exact_k2, witness_vmp_exact_k2, witness_roundtrip_exact_k2).",
+        proved="exact arithmetic, every m = 2^k (all k), reim and cplx layouts, reference and FMA/assembly schedules alike (the same network code as the bit-exact model, instantiated with a commutative ring with I^2=-1, zeta^m=I and the exact table = transcription of the fill_* functions): forward output j = evaluation of the input polynomial at zeta^(1+4*bitrev_k(j)); the inverse applied to exact evaluations returns m times the coefficients; ifft o fft = m.id for any pairing of implementations NON-VACUITY (Properties/ErrWitness.lean): at N = 8 (m = 4, K = R, zeta = exp(i pi/8)) with the library's ACTUAL stored twiddle patterns and the configuration it installs on this host, every hypothesis of reim_fft_err / reim_ifft_err, small_product_err / _exact, vmp_exact (2x1) and roundtrip_exact (CfgOk, 3.5u accuracy of both tables proved from rational enclosures of cos/sin(pi/8), flags by evaluation, budget) is discharged on concrete integer inputs and the conclusions are evaluated (witness_*_k2); not covered by a witness: the cplx-layout error theorems, svp_err / vmp_err and the C16Err2 budgets; the table patterns and the configuration in the witness are literals read from the library once, not regenerated per run.",
         not_proved="rounding bound: PROVED (C06Err) for all four binary64 drivers - reim and cplx layout, forward and inverse, reference and FMA/assembly schedules, every m = 2^k: sum |out_j - exact_j|^2 <= ((1+8u)^k - 1)^2 sum |exact_j|^2, and <= (8 log2(2m) u)^2 for m <= 65536, under two explicit hypotheses: stored twiddles within 3.5*2^-53 of the exact roots (libm cos/sin accuracy is measured on every run, <= 3.11*2^-53 on all 571288 entries, not proved) and no overflow / inexact underflow in any intermediate operation (flags of the flagged run; the statement is false in the underflow range, stream class 'tiny'); the hand-written assembly is tied by bit-exact streams only; read-only tables: covered by C18/C15",
         level_text="Lean 4 theorems for the exact-arithmetic FFT/iFFT network of every size and both layouts, and the binary64 rounding bound of the property for the reim and cplx forward and inverse transforms; bit-exact differential streams against reference C, AVX2/FMA C and the assembly leaves for every m = 1..65536 with a __float128 evaluation oracle and the property's 2-norm bound; real drivers also run on crafted small-dyadic tables (signed-zero sensitivity); all table entries checked against quad-precision cos/sin",
         design_ref="DESIGN.md §5 C06",
@@ -119,7 +119,7 @@ PROPS = {
         gen=["dispatch", "csrc"],
         streams=dict(quick=[("vz_box", "plain"), ("r4_layout", "plain"), ("r4_arith", "plain"), ("q1_prod", "plain"), ("ff_fft", "plain"), ("md_model", "plain"), ("md_prod", "plain"), ("md_vmp", "plain"), ("cv_rnx", "plain"), ("cv_cplxvec", "plain"), ("big_align", "plain"), ("cs_avx", "plain"), ("cs_vavx", "plain")],
                      thorough=[("vz_box", "plain"), ("r4_layout", "plain"), ("r4_arith", "plain"), ("q1_prod", "plain"), ("ff_fft", "plain"), ("md_model", "plain"), ("md_prod", "plain"), ("md_vmp", "plain"), ("cv_rnx", "plain"), ("cv_cplxvec", "plain"), ("big_align", "plain"), ("cs_avx", "plain"), ("cs_vavx", "plain")]),
-        proved="Gen obligation: every kernel the live library installs (every constructor and module-table entry, 5 CPU masks, m = 2^0..2^16) belongs to its listed equivalence class; SOURCE TIE (Properties/SrcAvx.lean, SrcVecAvx.lean): the C source of znx_add/sub/negate_i64_avx and of vec_znx_add/sub/negate_avx, translated on every run with the AVX2 intrinsics as 4x64 / 2x64 lane primitives, is proved equal to the model AND to the generated term of the reference kernel / wrapper for every nn the kernel accepts (nn = 1, 2 or a positive multiple of 4), any aliasing, no out-of-bounds access (streams cs_avx, cs_vavx validate translator + interpreter against the compiled code); the older hand model Spq.CoeffsAvx theorems (znx_*_avx_eq_ref) are kept; family theorems imported: reim4/reim/cplx products ref = avx2/fma/sse/avx512 in exact arithmetic and layout kernels equal (C17), q120 AVX2 = reference word for word (theorems of C10/C04, which are obligations of those checks, not of this one)",
+        proved="Gen obligation: every kernel the live library installs (every constructor and module-table entry, 5 CPU masks, m = 2^0..2^16) belongs to its listed equivalence class; SOURCE TIE (Properties/SrcAvx.lean, SrcVecAvx.lean): the C source of znx_add/sub/negate_i64_avx and of vec_znx_add/sub/negate_avx, translated on every run with the AVX2 intrinsics as 4x64 / 2x64 lane primitives, is proved equal to the model AND to the generated term of the reference kernel / wrapper for every nn the kernel accepts (nn = 1, 2 or a positive multiple of 4), exact aliasing or disjoint buffers, no out-of-bounds access (streams cs_avx, cs_vavx validate translator + interpreter against the compiled code); the older hand model Spq.CoeffsAvx theorems (znx_*_avx_eq_ref) are kept; family theorems imported: reim4/reim/cplx products ref = avx2/fma/sse/avx512 in exact arithmetic and layout kernels equal (C17), q120 AVX2 = reference word for word (theorems of C10/C04, which are obligations of those checks, not of this one)",
         not_proved="float kernels of different variants differ by rounding: each variant is tied bit-exactly to its own model and to the exact-arithmetic definition, not to each other; AVX-512 FFT (cplx_fft_avx512) is not reached by any constructor on this dispatch table and is not modelled",
         level_text="kernel-decided dispatch-closure obligation on the table read back from the live library + Lean equivalence theorems per kernel family + pairwise bit-exact correspondence under both dispatch masks",
         design_ref="DESIGN.md §5 C07",
@@ -132,8 +132,8 @@ PROPS = {
         extra_modules=["SpqProofs.Properties.SrcElem", "SpqProofs.Properties.SrcVec"],
         gen=["csrc"],   # tools/c2lean.py: spqlios/coeffs/coeffs_arithmetic.c -> lean/Gen/CSrc.lean (clang JSON AST -> Spq.CIR terms)
         streams=dict(quick=[("vz_box", "plain"), ("cs_elem", "plain"), ("huge_span", "plain"), ("cs_vec", "plain")], thorough=[("vz_box", "plain"), ("cs_elem", "plain"), ("cs_elem", "asan"), ("huge_span", "plain"), ("cs_vec", "plain"), ("cs_vec", "asan")]),
-        proved="value + frame + bounds-flag theorems for zero/copy/negate/add/sub/rotate/automorphism and the big wrappers, for all nn, limb counts incl. 0, strides >= nn, offsets, heap contents, aliased or disjoint sources; int64 zero-extension corollaries SOURCE TIE (Properties/SrcElem.lean): the C source of znx_add/sub/negate/copy/zero_i64_ref, translated on every run by tools/c2lean.py into a deep-embedded term, is proved equal to the model function for every nn and any aliasing, with no out-of-bounds access. WRAPPERS (Properties/SrcVec.lean): the C source of vec_znx_zero/copy/negate/add/sub/rotate/automorphism_ref (loops over limbs, per-limb pointer-equality tests selecting the in-place kernels, calls of the generated kernel terms with p + i*sl pointers, zero extension), translated on every run, is proved equal to the HEAP model VecZnx.* that the theorems of this file are about, on an arena with windows (offset, stride), for all nn, limb counts incl. 0 and strides, with no out-of-bounds access (composes with the *_no_fault / *_spec theorems above).",
-        not_proved="AVX lane chunking is modelled as the same per-limb function (tied by the correspondence on the avx variants and the generic/AVX dispatch masks)",
+        proved="value + frame + bounds-flag theorems for zero/copy/negate/add/sub/rotate/automorphism and the big wrappers, for all nn, limb counts incl. 0, strides >= nn, offsets, heap contents, aliased or disjoint sources; int64 zero-extension corollaries SOURCE TIE (Properties/SrcElem.lean): the C source of znx_add/sub/negate/copy/zero_i64_ref, translated on every run by tools/c2lean.py into a deep-embedded term, is proved equal to the model function for every nn and any aliasing, with no out-of-bounds access. WRAPPERS (Properties/SrcVec.lean): the C source of vec_znx_zero/copy/negate/add/sub/rotate/automorphism_ref (loops over limbs, per-limb pointer-equality tests selecting the in-place kernels, calls of the generated kernel terms with p + i*sl pointers, zero extension), translated on every run, is proved equal to the HEAP model VecZnx.* that the theorems of this file are about, on an arena with windows (offset, stride), for all nn < 2^61, limb counts incl. 0 and strides, per-limb identical-or-disjoint windows (under partial overlap of a result limb with a source limb the model does not describe the code); rotate/automorphism: nn = 2^t, automorphism odd p; with no out-of-bounds access (composes with the *_no_fault / *_spec theorems above).",
+        not_proved="AVX lane chunking: proved from the translated source for add/sub/negate (SrcVecAvx, an obligation of C07); the other AVX paths are tied by the correspondence on the avx variants and the dispatch masks",
         level_text="Lean 4 theorems over the heap model of vec_znx: value, frame and bounds for all sizes (incl. 0), strides, dimensions and contents; model tied to /repo by bit-exact whole-arena differential runs (canary padding, all size orderings, both module types and dispatch masks)",
         design_ref="DESIGN.md §5 C08",
     ),
@@ -145,7 +145,7 @@ PROPS = {
         gen=["csrc"],   # tools/c2lean.py: spqlios/coeffs/coeffs_arithmetic.c -> lean/Gen/CSrc.lean (clang JSON AST -> Spq.CIR terms)
         streams=dict(quick=[("kz_probe", "plain"), ("kz_f64", "plain"), ("vz_box", "plain"), ("cs_rot", "plain")], thorough=[("kz_probe", "plain"), ("kz_f64", "plain"), ("vz_box", "plain"), ("md_prog", "plain"), ("cs_rot", "plain"), ("cs_rot", "asan")]),
         proved="rotate/mulxp/automorphism (out of place) equal the closed coefficient formulas of X^p·a, X^p·a − a, a(X^p) for every nn, every p in Z (automorphism: nn = 2^t, odd p; result independent of prior output); in-place rotation and (X^p−1) equal the out-of-place maps for EVERY nn and p with the model's fuel proved sufficient; in-place automorphism equals the out-of-place one for every nn = 2^t (t ≤ 64: the C contract) and odd p, via (Z/2^t)^× = <−1>×<5>; composition laws (additive / multiplicative mod 2N) SOURCE TIE (Properties/SrcRot.lean): the C source of znx/rnx rotate, mul_xp_minus_one, automorphism (out of place) and of the in-place rotate / mul_xp_minus_one cycle walks, translated on every run, is proved equal to the model functions for nn = 2^t, every p (termination of the do-while walks proved). Properties/SrcAutIn.lean: the C source of znx_automorphism_inplace_i64 / rnx_automorphism_inplace_f64 (the five-way per-level case split and paired orbit walks), translated on every run, equals Coeffs.automorphismInplace for nn = 2^t (t <= 62), odd p, with termination (fuel 3nn+64) and no out-of-bounds access: all 17 translated kernels now have a for-all theorem.",
-        not_proved="the closed coefficient formulas of rotation / automorphism / X^p-1 are tied to Mathlib's AdjoinRoot (X^N+1) in Properties/Bridge.lean (an obligation of this check); double-precision variants are the same polymorphic definitions (tied by the probe stream on integer-valued doubles)",
+        not_proved="the closed coefficient formulas of rotation / automorphism / X^p-1 are tied to Mathlib's AdjoinRoot (X^N+1) in Properties/Bridge.lean (an obligation of this check); double-precision variants are the same polymorphic definitions; their C source is proved equal to the model in SrcRot / SrcAutIn (cells as opaque patterns) and they run in the probe streams",
         level_text="Lean 4 theorems for all N and all p, including the in-place cycle-leader walks (termination proved) and the 2-adic orbit structure of the in-place automorphism; exhaustive injective-probe correspondence with the real int64 and double kernels",
         design_ref="DESIGN.md §5 C09",
         technique="Lean 4 proof (orbit/induction arguments, Mathlib ZMod units) + exhaustive probe correspondence",
@@ -174,6 +174,7 @@ PROPS = {
     "C11": dict(
         title="Memory contract: declared extents and *_tmp_bytes scratch are never exceeded",
         module="SpqProofs.Properties.C11",
+        also_tags=["C18"],   # frame verdicts of mh_arena (a write outside result and scratch) are memory-contract violations too
         extra_modules=["SpqProofs.Properties.ModHeap"],
         gen=["tmpbytes"],
         variants={"plain": None, "asan": None},
@@ -188,12 +189,13 @@ PROPS = {
     "C12": dict(
         title="Shared modules and precomputed tables are safe for concurrent use",
         module="SpqProofs.Properties.C12",
+        extra_modules=["SpqProofs.Properties.C12Warm"],
         gen=["globals", "caches"],
         variants={"plain": None, "tsan": None},
         streams=dict(quick=[("mt_module", "plain"), ("mt_module", "tsan"), ("ca_prog", "plain")],
                      thorough=[("mt_module", "plain"), ("mt_module", "tsan"), ("ca_prog", "plain")]),
-        proved="(1) read-only threads: for every interleaving the shared memory is unchanged and every thread observes what it observes solo; (2) Gen obligation re-decided by the kernel on every run: the call-graph closure (indirect calls over-approximated) of every exported const MODULE*/const *_PRECOMP* entry point references no shared mutable global; (3) warm-up: a *_simple call after a completed call with the same key performs no write to its cache; (4) shared_caches_keyed_by_dimension_only: every convenience cache that is not thread-local is keyed by the dimension alone (kernel-decided on the extracted structure), which is what the warm-up protocol needs",
-        not_proved="real weak-memory interleavings, compiler reordering and the first-use race of the *_simple functions are runtime behaviour: exhibited by the ThreadSanitizer stream (16 threads, fresh and warmed-up), not by a theorem; extraction of the call graph / global references from the object files is trusted; SCOPE of obligation (2): static-storage objects only - a write through the const MODULE* / const *_PRECOMP* pointer into the heap object itself (lazily filled field, cast-away const) is excluded by no theorem, only by the TSan stream and the byte snapshots of C18; the q120 product kernels take a non-const precomp pointer and are roots since the extraction also accepts non-const *_precomp first parameters; mt_module exercises the module-level entry points, the big-coefficient wrappers, prepare/apply, and every table-based kernel family (fftvec products, conversions, FFT/iFFT, q120 products and NTT) on shared objects, not every exported function",
+        proved="(1) read-only threads: for every interleaving the shared memory is unchanged and every thread observes what it observes solo; (2) Gen obligation re-decided by the kernel on every run: the call-graph closure (indirect calls over-approximated) of every exported const MODULE*/const *_PRECOMP* entry point references no shared mutable global; (3) warm-up: a *_simple call after a completed call with the same key performs no write to its cache; (4) shared_caches_keyed_by_dimension_only: every convenience cache that is not thread-local is keyed by the dimension alone (kernel-decided on the extracted structure), which is what the warm-up protocol needs; (5) Properties/C12Warm.lean, for every extracted cache that is not thread-local: Warm D (one completed call per dimension of D, any history) is preserved by every step, and every later call with m in D and ARBITRARY other arguments rebuilds nothing, writes no slot, leaves the cache state unchanged and uses the table built for its m (warmup_no_shared_write, _seq, warmup_from_history); lifted to threads whose atomic actions are convenience calls executed by the real step (warmup_schedule_indep: every schedule leaves the shared cache unchanged, per-thread observations = solo); thread-local caches work on a per-thread object (tls_rows_private, tls_schedule_indep)",
+        not_proved="real weak-memory interleavings, compiler reordering and the first-use race of the *_simple functions are runtime behaviour: exhibited by the ThreadSanitizer stream (16 threads, fresh and warmed-up), not by a theorem; extraction of the call graph / global references from the object files is trusted; SCOPE of obligation (2): static-storage objects only - a write through the const MODULE* / const *_PRECOMP* pointer into the heap object itself (lazily filled field, cast-away const) is excluded by no theorem, only by the TSan stream and the byte snapshots of C18; the q120 product kernels take a non-const precomp pointer and are roots since the extraction also accepts non-const *_precomp first parameters; mt_module exercises the module-level entry points, the big-coefficient wrappers, prepare/apply, and every table-based kernel family (fftvec products, conversions, FFT/iFFT, q120 products and NTT) on shared objects, not every exported function; a convenience call is one atomic action in the thread model of C12Warm (two threads inside the warm-up call of the same dimension are outside it: TSan stream); the call-graph extraction does not follow pointers to globals stored in data tables",
         level_text="Lean 4 theorem over sequentially consistent interleavings + kernel-decided obligation on the call graph and global-reference sets extracted from the freshly built objects; TSan and per-thread-vs-solo bitwise streams tie it to the real code (partial: runtime memory model not modelled)",
         design_ref="DESIGN.md §5 C12",
         technique="Lean 4 proof (interleaving induction) + kernel-decided reachability over extracted call graph; TSan correspondence",
@@ -206,7 +208,7 @@ PROPS = {
         extra_modules=["SpqProofs.Properties.Cover", "SpqProofs.Properties.C14Sel"],
         variants={"plain": None},
         streams=dict(quick=[("f6_conv", "plain"), ("cv_conv32", "plain")], thorough=[("f6_conv", "plain"), ("cv_conv32", "plain")]),
-        proved="on the bit-exact soft-float model, for every m (through the loop / shuffle structure of each kernel), every divisor 2^j with finite table constants and every input pattern in the stated magnitude domain: from_znx64 exact (cast and add-2^51/or/sub trick, |x|<2^50); to_znx64 ref (|x/d|<2^63) and bnd50 (|x/d|<2^50) within 1/2 of x/d; cplx_from_znx32 / cplx_from_tnx32 exact for every int32 (ref and AVX2 shuffle kernel); cplx_to_tnx32 ref and AVX2 = round(x*2^32/d) mod 2^32 for |x/d|<2^18; reim_to_tnx ref = avx bit-for-bit and x/d - integer within 2^(L-51), result in [-1/2,1/2), for every log2overhead L<=48 with the table recomputed by the model of the constructor; to_znx64_bnd63 / to_znx64_bnd63_wide: the repaired wide kernel (D7) within 1/2 of x/d for |x/d| < 2^52, ties included, and exact up to 2^63; the pre-repair kernel is kept as bnd63OffsetOld with its kernel-checked counterexample at x = pred(d/2); to_tnx_basic_ref_partial (rint form, exact x/d - n, under a no-underflow hypothesis) Properties/C14Sel.lean: to_znx64_selection (which kernel init_reim_to_znx64_precomp installs, from the model of the constructor validated by f6_conv) and to_znx64_dispatch (constructor + selected kernel within 1/2 of x/d in one statement; the (2m) % 4 = 0 side condition is derived).",
+        proved="on the bit-exact soft-float model, for every m (through the loop / shuffle structure of each kernel), every divisor 2^j with finite table constants and every input pattern in the stated magnitude domain: from_znx64 exact (cast and add-2^51/or/sub trick, |x|<2^50); to_znx64 ref (|x/d|<2^63) and bnd50 (|x/d|<2^50) within 1/2 of x/d; cplx_from_znx32 / cplx_from_tnx32 exact for every int32 (ref and AVX2 shuffle kernel); cplx_to_tnx32 ref and AVX2 = round(x*2^32/d) mod 2^32 for |x/d|<2^18; reim_to_tnx ref = avx bit-for-bit and x/d - integer within 2^(L-51), result in [-1/2,1/2), for every log2overhead L<=48 with the table recomputed by the model of the constructor; to_znx64_bnd63 / to_znx64_bnd63_wide: the repaired wide kernel (D7) within 1/2 of x/d for |x/d| < 2^52, ties included, and exact up to 2^63; the pre-repair kernel is kept as bnd63OffsetOld with its kernel-checked counterexample at x = pred(d/2); to_tnx_basic_ref_partial (rint form, exact x/d - n, under a no-underflow hypothesis) Properties/C14Sel.lean: to_znx64_selection (which kernel init_reim_to_znx64_precomp installs, from the model of the constructor validated by f6_conv) and to_znx64_dispatch (constructor + selected kernel within 1/2 of x/d in one statement for m < 2^32, -1020 <= j <= 971, finite input with |x/d| < 2^min(log2bound, 52); the (2m) % 4 = 0 side condition is derived).",
         not_proved="Inf/NaN inputs are not modelled by Spq.F64 (excluded by the magnitude bounds or by explicit finiteness hypotheses); log2overhead 49..52 are outside the property; to_tnx_basic_ref below the underflow threshold of the quotient (error <= 2^-1075, inside the tolerance) is not covered (_partial); the reim int32 conversions are NOT_IMPLEMENTED stubs in the library (Cover.reim32_all_entry_points_abort)",
         assumptions=COMMON_ASSUME + ["divisor/2., 1./divisor and 2^32/divisor are compiled as IEEE divisions or exact multiplications (bit-identical for powers of two)"],
     ),
@@ -240,7 +242,7 @@ PROPS = {
         extra_modules=["SpqProofs.Properties.Closed", "SpqProofs.Properties.C16Err", "SpqProofs.Properties.Bridge", "SpqProofs.Properties.ErrWitness", "SpqProofs.Properties.BridgeFft", "SpqProofs.Properties.C16Err2"],
         streams=dict(quick=[("md_prog", "plain"), ("vz_box", "plain"), ("ff_tables", "plain")],
                      thorough=[("md_prog", "plain"), ("vz_box", "plain"), ("ff_tables", "plain")]),
-        proved="coefficient-space fragment, complete: for every layout (N = 2^t, strides >= N, pairwise disjoint variables inside one int64 heap), every straight-line program of add/sub/negate/copy/rotate/automorphism/normalize calls (any length, destination equal to a source or not, any limb counts incl. 0) and every input, if the exact interpreter stays in budget (every stored coefficient fits int64; |normalize input| <= 2^62, k in [1,62]; odd automorphism index) then the heap after running the model of vec_znx.c holds, limb by limb, the exact expression in Z[X]/(X^N+1) (pointwise +-, X^p*a, a(X^p) = sum a_i X^(ip), balanced base-2^k digits), all other cells (padding, other variables) are unchanged and no access was out of bounds (coeff_prog_refines, coeff_prog_output; per-call *_sim derived from the C08/C09/C05 specs). Mixed programs (dft, svp_prepare/apply, vmp_prepare/apply, idft, small product on a second store of opaque objects): prog_refines_partial proves the refinement for every module and every program relative to the record DftOpsSound of per-function exactness facts (dft_exact, svp_exact, vmp_exact, dft_idft_exact, small_product_exact = the C01/C02 theorems) - heap reads with strides, stores, frames, interplay with coefficient-space calls and validity of opaque objects as inputs of later calls are proved; DftOpsSound is shown inhabited (identity-transform module) BINARY64 (Properties/C16Err.lean): the program interpreter run with the binary64 module instance Cfg.parts produces exactly the integer limbs of the exact interpreter for every well-typed program (all ten ops incl. vmp_apply_dft_to_dft) whose DFT-space steps satisfy their per-operation budget (round trip dft->idft: 17 log2(N) u |a|_2 < 1/2; svp / small product: C01Err budget; vmp: C02Err budget) and whose vmp_apply_dft_to_dft reads a raw dft output (SingleProductDepth, decidable): prog_refines_f64_partial, prog_output_f64_partial, dftOpsSound_f64 (DftOpsSound instantiated for the library module), f64_agrees_with_exact_network_partial. The stream md_prog now also sends every program to the Lean program model (driver family pg) and compares the final heap and every DFT variable bit for bit. NON-VACUITY (Properties/ErrWitness.lean): at N = 8 (m = 4, K = R, zeta = exp(i pi/8)) with the library's ACTUAL stored twiddle patterns and the configuration it installs on this host, every hypothesis of the binary64 rounding theorems (CfgOk, 3.5u accuracy of both tables proved from rational enclosures of cos/sin(pi/8), flags by evaluation, budget) is discharged on concrete integer inputs and the conclusions are evaluated (witness_reim_fft_err_k2, witness_small_product_exact_k2, witness_vmp_exact_k2, witness_roundtrip_exact_k2). Properties/C16Err2.lean removes the SingleProductDepth restriction: with a metric invariant (per-limb 2-norm distance delta of a DFT variable from the exact transform, propagated through svp / vmp / vmp_apply_dft_to_dft by explicit formulas) prog_refines_f64_metric_partial / prog_output_f64_metric_partial hold for EVERY OpD program, product chains of any depth (example: dft -> svp -> vmp_apply_dft_to_dft -> idft).",
+        proved="coefficient-space fragment, complete: for every layout (N = 2^t, strides >= N, pairwise disjoint variables inside one int64 heap), every straight-line program of add/sub/negate/copy/rotate/automorphism/normalize calls (any length, destination equal to a source or not, any limb counts incl. 0) and every input, if the exact interpreter stays in budget (every stored coefficient fits int64; |normalize input| <= 2^62, k in [1,62]; odd automorphism index) then the heap after running the model of vec_znx.c holds, limb by limb, the exact expression in Z[X]/(X^N+1) (pointwise +-, X^p*a, a(X^p) = sum a_i X^(ip), balanced base-2^k digits), all other cells (padding, other variables) are unchanged and no access was out of bounds (coeff_prog_refines, coeff_prog_output; per-call *_sim derived from the C08/C09/C05 specs). Mixed programs (dft, svp_prepare/apply, vmp_prepare/apply, idft, small product on a second store of opaque objects): prog_refines_partial proves the refinement for every module and every program relative to the record DftOpsSound of per-function exactness facts (dft_exact, svp_exact, vmp_exact, dft_idft_exact, small_product_exact = the C01/C02 theorems) - heap reads with strides, stores, frames, interplay with coefficient-space calls and validity of opaque objects as inputs of later calls are proved; DftOpsSound is shown inhabited (identity-transform module) BINARY64 (Properties/C16Err.lean): the program interpreter run with the binary64 module instance Cfg.parts produces exactly the integer limbs of the exact interpreter for every well-typed program (all ten ops incl. vmp_apply_dft_to_dft) whose DFT-space steps satisfy their per-operation budget (round trip dft->idft: 17 log2(N) u |a|_2 < 1/2; svp / small product: C01Err budget; vmp: C02Err budget) and whose vmp_apply_dft_to_dft reads a raw dft output (SingleProductDepth, decidable): prog_refines_f64_partial, prog_output_f64_partial, dftOpsSound_f64 (a definition: the DftOpsSound record instantiated for the library module), f64_agrees_with_exact_network_partial. The stream md_prog now also sends every program to the Lean program model (driver family pg) and compares the final heap and every DFT variable bit for bit. NON-VACUITY (Properties/ErrWitness.lean): at N = 8 (m = 4, K = R, zeta = exp(i pi/8)) with the library's ACTUAL stored twiddle patterns and the configuration it installs on this host, every hypothesis of reim_fft_err / reim_ifft_err, small_product_err / _exact, vmp_exact (2x1) and roundtrip_exact (CfgOk, 3.5u accuracy of both tables proved from rational enclosures of cos/sin(pi/8), flags by evaluation, budget) is discharged on concrete integer inputs and the conclusions are evaluated (witness_*_k2); not covered by a witness: the cplx-layout error theorems, svp_err / vmp_err and the C16Err2 budgets; the table patterns and the configuration in the witness are literals read from the library once, not regenerated per run. Properties/C16Err2.lean removes the SingleProductDepth restriction: with a metric invariant (per-limb 2-norm distance delta of a DFT variable from the exact transform, propagated through svp / vmp / vmp_apply_dft_to_dft by explicit formulas) prog_refines_f64_metric_partial / prog_output_f64_metric_partial hold for EVERY OpD program, product chains of any depth (example at N = 2: svp -> vmp_apply_dft_to_dft -> idft, zero rounding error at that size).",
         not_proved="DftOpsSound is instantiated for the real FFT network in exact arithmetic (Closed: dftOpsSound_network, prog_refines_closed, incl. products of products) and for the library binary64 module (C16Err: dftOpsSound_f64). What remains for binary64: the per-operation budgets carry the proved constants (12 / 17 instead of the property 8 / 16), twiddle accuracy and the underflow side condition are hypotheses, the per-operation flags of a product fed into a product (C16Err2) are stated on the concrete binary64 operand. NTT120 big-coefficient programs (int128 limbs) are not in the program model (module-level theorems in C03Mod; md_prog stream). Properties/Bridge.lean (an obligation of this check) ties the rotation/automorphism formulas and the NTT-side product formula Q120Ntt.nmul to Mathlib AdjoinRoot (X^N+1); Properties/BridgeFft.lean does the same for the FFT-side formulas Spq.nmul / isum / Prog.polyMul / vmpVal used by C01/C02/Closed/C16",
         level_text="Lean 4 refinement theorem (simulation by induction on the program) for the whole coefficient-space fragment over the heap model of vec_znx.c; DFT-space extension proved relative to an explicit record of per-function exactness hypotheses; random well-typed programs over the real library (both dispatch masks, aliasing, shapes) checked against an independent 128-bit exact interpreter",
         design_ref="DESIGN.md §5 C16",
@@ -273,8 +275,8 @@ PROPS = {
         title="Read-only operands are never modified",
         module="SpqProofs.Properties.C18",
         extra_modules=["SpqProofs.Properties.ModHeap", "SpqProofs.Properties.C05"],
-        streams=dict(quick=[("vz_box", "plain"), ("vz_norm", "plain"), ("md_prod", "plain"), ("md_vmp", "plain"), ("md_ntt", "plain"), ("mn_model", "plain"), ("mh_arena", "plain")],
-                     thorough=[("vz_box", "plain"), ("vz_norm", "plain"), ("md_prod", "plain"), ("md_vmp", "plain"), ("md_ntt", "plain"), ("mn_model", "plain"), ("mh_arena", "plain")]),
+        streams=dict(quick=[("vz_box", "plain"), ("vz_norm", "plain"), ("md_prod", "plain"), ("md_vmp", "plain"), ("md_ntt", "plain"), ("mn_model", "plain"), ("mh_arena", "plain"), ("huge_span", "plain")],
+                     thorough=[("vz_box", "plain"), ("vz_norm", "plain"), ("md_prod", "plain"), ("md_vmp", "plain"), ("md_ntt", "plain"), ("mn_model", "plain"), ("mh_arena", "plain"), ("huge_span", "plain")]),
         proved="unconditional frame theorems: only the nn cells of the first rsz output limbs can change (any offsets, strides, overlap); hence every source cell not aliased with the output, including stride padding, is unchanged MODULE LAYER (Properties/ModHeap.lean): for the nine FFT64 entry points every arena cell outside the result region and the declared scratch is unchanged (sources, prepared scalars/matrices, stride padding); idft_tmp_a: frame = result + the used limbs of its DFT source (the documented exception). Normalization: C05.normalize_spec (an obligation of this check too) includes the frame (only the nn cells of the first res_size output limbs change); it carries the C05 magnitude hypotheses, unlike the other frame theorems.",
         not_proved="module tables are parameters of the functional kernels in the model (immutable by construction): that the C kernels do not write them is covered by the byte-snapshot streams (ModSnap), not by a theorem",
         level_text="Lean 4 frame theorems for every vec_znx operation with no hypotheses on offsets/strides; whole-arena byte comparison against the real code",
